@@ -588,7 +588,8 @@ pub fn check_multi(doc: &str, files: &[String], evals: &mut u64) -> Result<Optio
     let dir = fresh_dir("c07m");
     let mut rps = vec![];
     for (i, f) in files.iter().enumerate() {
-        let p = dir.join(format!("r{}.guard", i));
+        // a third of the runs: every rules file has the same base name, in a directory of its own
+        let p = if doc.len() % 3 == 0 { dir.join(format!("t{}/policy.guard", i)) } else { dir.join(format!("r{}.guard", i)) };
         write_file(&p, f);
         rps.push(p.to_string_lossy().to_string());
     }
